@@ -116,6 +116,9 @@ def match_known(prop, cls):
         for pre in k.get("class_prefixes", ()):
             if cls.startswith(pre):
                 return k["id"]
+        for suf in k.get("class_suffixes", ()):
+            if cls.endswith(suf):
+                return k["id"]
     return None
 
 
